@@ -504,6 +504,12 @@ func multipleSexesGuard(p *load.Prog) (bool, string) {
 }
 
 var tableSideConditions = map[string]func(p *load.Prog) (bool, string){
+	"P3 index []bool in gedcom.jaro":                                                 jaroWindow,
+	"P3 index string in gedcom.JaroWinkler":                                          jaroWinklerPrefix,
+	"P3 index string in gedcom.JaroWinkler #2":                                       jaroWinklerPrefix,
+	"P3 index gedcom.IndividualNodes in gedcom.createPointerJobs$1":                  stridedWorkerIndex("createPointerJobs"),
+	"P3 index gedcom.IndividualNodes in gedcom.createUniqueJobs$1":                   stridedWorkerIndex("createUniqueJobs"),
+	"P3 index string const 0 in html.surnameStartsWith":                              surnameFirstByte,
 	"P3 index []*gedcom.DateNode const 0 in (*html.EventDate).WriteHTMLTo":           eventDateBlank,
 	"P3 slice []string in (*gedcom.MultipleSexesWarning).String":                     multipleSexesGuard,
 	"P3 slice string in gedcom.NewUUIDFromString":                                    uuidPattern32,
